@@ -56,6 +56,9 @@ CHECKS["C19"] = dict(cat="translation_validation", tech="enumerated editing hist
 CHECKS["C04"] = dict(cat="other", tech="SMT (z3, uninterpreted exp with congruence) equality of each traced rate/steady-state/time-constant/current expression with a literature transcription; tolerance queries in save_exp's clipped regime; DAG identity for renaming",
    text="For every expression of HH, Na, K, Km, CaL, CaT, Leak and IonotropicSynapse z3 proves, for all v in [-150,100], states in [0,1] and parameter ranges, that the traced implementation equals the transcribed published expression exactly where save_exp's clip is inactive and within 1e-6 relative where it is active; defaults are compared with a reference table and change_name is decided by DAG identity under the key bijection.",
    note="the literature transcription (vf/checks/c04.py) is the trusted base; CaT tau_u is a regression pin; exp uninterpreted; one opaque rename prefix", ref="6 C04")
+CHECKS["C05"] = dict(cat="other", tech="symbolic encoding of the IR of jax.grad(loss through integrate) compared per trainable scalar with an own symbolic derivative of the encoded forward loss (DAG identity, congruence descent, z3); gradient DAGs across checkpoint layouts; definedness obligations",
+   text="For small modules (1-2 compartments x 2 steps with HH, 3 compartments x 1 step with branch-level groups of unequal size, a 2-cell network) the gradient IR is proved equal, for all parameter values away from kinks, to the symbolic derivative of the forward DAG for channel/synapse parameters, geometry, capacitance, initial states, stimulus amplitude and data_set values; checkpointed gradients are compared with the plain one; the gradient's definedness is solved for on C03's range. Where z3 cannot decide (gradients w.r.t. geometry through branch points) the instance is inconclusive and a finite-difference replay is run as a side-check.",
+   note="own differentiation rules are the oracle; exact real arithmetic; kinks excluded; longer simulations and jax.sparse ground truth outside", ref="6 C05")
 NA = {}
 checks = []
 for pid, c in CHECKS.items():
